@@ -22,15 +22,16 @@ import (
 )
 
 type vfProtoArgs struct {
-	Cfg     store.VFConfig
-	Prop    string // "c11" or "c12": which signatures stop a case
-	Streams int    // grammar streams
-	Cmds    int    // commands per stream
-	Mutated int    // mutated streams
-	Attrib  int    // attributed single commands (C12)
-	Conns   int    // concurrent connections for the stress part
-	OOM     bool   // small body_big / flush_max and no flushing: drives the refusal class
-	MaxBody int
+	Cfg       store.VFConfig
+	Prop      string // "c11" or "c12": which signatures stop a case
+	Streams   int    // grammar streams
+	Cmds      int    // commands per stream
+	Mutated   int    // mutated streams
+	Attrib    int    // attributed single commands (C12)
+	Conns     int    // concurrent connections for the stress part
+	OOM       bool   // small body_big / flush_max and no flushing: drives the refusal class
+	MaxBody   int
+	CutSweeps int // connection dropped after every byte of a store command (one connection per cut)
 }
 
 // ---- C-buffer registry (hook vhook.Mem) ----
@@ -643,6 +644,58 @@ func vfProto(env *vfc.Env) {
 		}
 		conn.CloseWrite()
 		<-done
+	}
+	// 3b. connection drop at EVERY byte of a store command: one connection per cut
+	for sw := 0; sw < a.CutSweeps; sw++ {
+		r := rnd.Split(uint64(8800 + sw))
+		verb := []string{"set", "add", "replace", "cas", "append"}[r.Intn(5)]
+		body := proto.GenBody(r, r.Pick(10, 80, 5000))
+		key := keys[r.Intn(len(keys))]
+		var raw []byte
+		if verb == "cas" {
+			raw = []byte(fmt.Sprintf("cas %s %d 0 %d 7\r\n", key, r.Intn(100), len(body)))
+		} else {
+			raw = []byte(fmt.Sprintf("%s %s %d 0 %d\r\n", verb, key, r.Intn(100), len(body)))
+		}
+		raw = append(append(raw, body...), '\r', '\n')
+		step := 1
+		if len(raw) > 400 {
+			step = len(raw) / 200 // long bodies: every byte of the header and the tail, sampled inside the body
+		}
+		for cut := 0; cut <= len(raw); cut++ {
+			if step > 1 && cut > 40 && cut < len(raw)-40 && cut%step != 0 {
+				continue
+			}
+			id := fmt.Sprintf("cut%d-%d", sw, cut)
+			if !env.Want(id) && env.Only != "" {
+				continue
+			}
+			res.Begin(id, map[string]interface{}{"verb": verb, "cut": cut, "of": len(raw)})
+			res.Eval(1)
+			conn, done := srv.connect(id)
+			conn.Send(raw[:cut])
+			conn.CloseWrite()
+			select {
+			case <-done:
+			case <-time.After(vfWatchdog):
+				res.Violate(id, "c11:wedged:cut", fmt.Sprintf("%s command cut after %d of %d bytes: the server goroutine did not return", verb, cut, len(raw)), nil)
+				continue
+			}
+			now := srv.quiesce()
+			if d := now.minus(base); !d.zero() {
+				stage := "header"
+				if cut > len(raw)-len(body)-2 {
+					stage = "body"
+				}
+				if cut >= len(raw)-2 {
+					stage = "terminator"
+				}
+				report(id, fmt.Sprintf("connection-drop:%s:%s", verb, stage), d, map[string]interface{}{"verb": verb, "cut": cut, "raw": fmt.Sprintf("%q", vfTrunc(raw))})
+				base = now
+			}
+			res.Event("cut_connections", 1)
+		}
+		res.Seen(fmt.Sprintf("cut-sweep/%s/body=%d", verb, len(body)))
 	}
 	// 4. stress: several connections at once, checked at the end
 	if a.Conns > 1 {
